@@ -184,7 +184,13 @@ func c07History(r *hx.Run, w *W, ps *plans, rnd *rand.Rand, in c07Inst, hi int) 
 					quitter.Do(hx.Req{Addr: in.addr, Host: "c07.example", URI: uri, Timeout: 10 * time.Second})
 				}()
 				if !hx.WaitUntil(10*time.Second, func() bool { return w.Farm.InflightKey(key) == 1 }) {
+					// the step could not be established: the rest of this history would be judged against a model
+					// that assumes it happened
 					r.InconclusiveCase("C07: aborted probe did not reach the origin")
+					quitter.Abort()
+					<-qdone
+					close(gate)
+					return
 				}
 				quitter.Abort()
 				<-qdone
